@@ -504,6 +504,10 @@ def rule_idx_space(ctx: RuleContext, p: Program, rid: str) -> None:
             params = fn.params[1:]
             if not is_h and fn.name in SEQ_PARAM_METHODS and params and fn.kind not in ('staticmethod', 'classmethod'):
                 env[params[0]] = VIEW
+            if not is_h and fn.name == 'index' and len(params) >= 2 and fn.kind not in ('staticmethod', 'classmethod'):
+                # Sequence.index(value, start, stop): the bounds are positions of the sequence the method belongs to
+                for prm_ in params[1:3]:
+                    env[prm_] = VIEW
             if is_h and fn.name == 'handle_splice' and len(params) >= 2:
                 env[params[0]] = RAW
                 env[params[1]] = RAW
